@@ -783,6 +783,9 @@ func descD(v ssa.Value, depth int) string {
 		if d, ok := virtualParamDesc(x, depth); ok {
 			return d
 		}
+		if fv := boundStructField(x); fv != nil {
+			return descD(fv, depth+1)
+		}
 		base, _, name := ownerFieldBase(x)
 		if b, ok := rerootBase(base); ok {
 			return b + "." + name
@@ -791,6 +794,9 @@ func descD(v ssa.Value, depth int) string {
 	case *ssa.Field:
 		if d, ok := virtualParamDesc(x, depth); ok {
 			return d
+		}
+		if fv := boundStructField(x); fv != nil {
+			return descD(fv, depth+1)
 		}
 		return descD(x.X, depth+1) + "." + refFieldName(typeKey(x.X.Type()), fieldName(x.X.Type(), x.Field))
 	case *ssa.UnOp:
@@ -1960,4 +1966,141 @@ func isBigWrapperFn(g *ssa.Function) bool {
 func isStringType(t types.Type) bool {
 	b, ok := t.Underlying().(*types.Basic)
 	return ok && b.Info()&types.IsString != 0
+}
+
+// boundStructField: v reads a field of a by-value struct parameter (or of the local it is spilled to) while the
+// function is examined on behalf of a call whose argument is a struct literal built at the call site
+// (`r := primeRange{start: s, length: l}; r.lowerBound()`): the value the call site put into that field.
+func boundStructField(v ssa.Value) ssa.Value {
+	if len(paramBindV) == 0 {
+		return nil
+	}
+	var p *ssa.Parameter
+	field := -1
+	switch x := v.(type) {
+	case *ssa.Field:
+		p, _ = x.X.(*ssa.Parameter)
+		field = x.Field
+	case *ssa.FieldAddr:
+		al, ok := x.X.(*ssa.Alloc)
+		if !ok {
+			return nil
+		}
+		n := 0
+		for _, r := range referrersOf(al) {
+			switch u := r.(type) {
+			case *ssa.Store:
+				if u.Addr == ssa.Value(al) {
+					n++
+					p, _ = u.Val.(*ssa.Parameter)
+				}
+			case *ssa.FieldAddr:
+				for _, rr := range referrersOf(u) {
+					if st, isSt := rr.(*ssa.Store); isSt && st.Addr == ssa.Value(u) {
+						return nil // the copy is modified
+					}
+				}
+			}
+		}
+		if n != 1 {
+			return nil
+		}
+		field = x.Field
+	}
+	if p == nil {
+		return nil
+	}
+	if _, isStruct := p.Type().Underlying().(*types.Struct); !isStruct {
+		return nil
+	}
+	bv, ok := paramBindV[p]
+	if !ok || bv == nil {
+		return nil
+	}
+	return structFieldValue(bv, field)
+}
+
+// preciseLeaves collects the descriptors of the inputs v is computed from: parameters (as bound), globals, fields,
+// results of calls that cannot be looked into. An unexported helper of the module is looked into (its returned values,
+// with its parameters bound to the call's arguments) instead of being taken to depend on all of its arguments.
+func preciseLeaves(v ssa.Value, depth int, seen map[ssa.Value]bool, out map[string]bool) {
+	if v == nil || seen[v] {
+		return
+	}
+	seen[v] = true
+	switch x := v.(type) {
+	case *ssa.Const, *ssa.Function, *ssa.Builtin:
+		return
+	case *ssa.Parameter:
+		if bv, ok := paramBindV[x]; ok && bv != nil {
+			preciseLeaves(bv, depth, seen, out)
+			return
+		}
+		out[desc(x)] = true
+		return
+	case *ssa.Field, *ssa.FieldAddr:
+		if fv := boundStructField(v); fv != nil {
+			preciseLeaves(fv, depth, seen, out)
+			return
+		}
+		out[desc(v)] = true
+		return
+	case *ssa.UnOp:
+		if x.Op == token.MUL {
+			switch a := x.X.(type) {
+			case *ssa.Alloc:
+				n := 0
+				for _, r := range referrersOf(a) {
+					if st, ok := r.(*ssa.Store); ok && st.Addr == ssa.Value(a) {
+						preciseLeaves(st.Val, depth, seen, out)
+						n++
+					}
+				}
+				if n == 0 {
+					out[desc(v)] = true
+				}
+				return
+			case *ssa.FieldAddr:
+				if fv := boundStructField(a); fv != nil {
+					preciseLeaves(fv, depth, seen, out)
+					return
+				}
+				out[desc(v)] = true
+				return
+			case *ssa.IndexAddr:
+				out[desc(v)] = true
+				preciseLeaves(a.Index, depth, seen, out)
+				return
+			}
+			out[desc(v)] = true
+			return
+		}
+	case *ssa.Call:
+		if g := staticCallee(x); g != nil && depth > 0 && inModuleFn(g) && g.Blocks != nil && g.Parent() == nil && g.Object() != nil && !g.Object().Exported() && bigMethod(x) == "" {
+			bindCall(x, g, func() {
+				for _, r := range returnsOf(g) {
+					for _, rv := range r.Results {
+						preciseLeaves(rv, depth-1, map[ssa.Value]bool{}, out)
+					}
+				}
+			})
+			return
+		}
+		for _, a := range callArgs(x) {
+			preciseLeaves(a, depth, seen, out)
+		}
+		return
+	case *ssa.Global, *ssa.Alloc, *ssa.MakeSlice, *ssa.MakeMap:
+		out[desc(v)] = true
+		return
+	}
+	if ins, ok := v.(ssa.Instruction); ok {
+		for _, op := range ins.Operands(nil) {
+			if *op != nil {
+				preciseLeaves(*op, depth, seen, out)
+			}
+		}
+		return
+	}
+	out[desc(v)] = true
 }
